@@ -125,12 +125,12 @@ Proof.
   destruct Hin as [->|Hin]; [nia|]. specialize (IH d Hr Hin). nia.
 Qed.
 
-Lemma dims_bound : forall dims c, forallb (fun d => 1 <=? d) dims = true -> dims_product dims 1 = Some c ->
+Lemma dims_bound : forall dims c, forallb dim_ok dims = true -> dims_product dims 1 = Some c ->
   Forall (fun d => 1 <= d <= c) dims.
 Proof.
   intros dims c Hge Hp. destruct (dims_product_nprod dims c Hge Hp) as [Hc HF]. subst c.
-  apply Forall_forall. intros d Hin. rewrite forallb_forall in Hge. specialize (Hge d Hin). apply Z.leb_le in Hge.
-  split; [exact Hge|].
+  apply Forall_forall. intros d Hin. rewrite forallb_forall in Hge. specialize (Hge d Hin). apply dim_ok_range in Hge.
+  split; [lia|].
   assert (Hin' : In (Z.to_nat d) (map Z.to_nat dims)) by (apply in_map; exact Hin).
   pose proof (in_le_nprod _ _ HF Hin'). lia.
 Qed.
@@ -186,7 +186,7 @@ Qed.
 
 Lemma hdr_array_facts : forall m alen dl dims p, bit m 7 = true -> variant_hdr_ok m alen dl dims p = true ->
   m mod 64 <= 25 /\ -1 <= alen <= max_variant_array_length /\ dl = zlen dims /\ dl <= max_int32 /\
-  forallb (fun d => 1 <=? d) dims = true /\ (bit m 6 = false -> dims = []) /\
+  forallb dim_ok dims = true /\ (bit m 6 = false -> dims = []) /\
   (0 < dl -> dims_product dims 1 = Some alen) /\
   ((dl < 2 /\ alen = -1 /\ p = VSlice None) \/
    (dl < 2 /\ 0 <= alen /\ exists l, p = VSlice (Some l) /\ length l = Z.to_nat alen /\ forallb not_slice l = true) \/
@@ -196,7 +196,7 @@ Proof.
   apply andb_true in H. destruct H as [Htid H]. apply andb_true in H. destruct H as [H Hshape].
   apply andb_true in H. destruct H as [H Hdims]. apply andb_true in H. destruct H as [Hlo Hhi].
   apply Z.leb_le in Htid, Hlo, Hhi.
-  assert (HD : dl = zlen dims /\ dl <= max_int32 /\ forallb (fun d => 1 <=? d) dims = true /\ (bit m 6 = false -> dims = []) /\
+  assert (HD : dl = zlen dims /\ dl <= max_int32 /\ forallb dim_ok dims = true /\ (bit m 6 = false -> dims = []) /\
                (0 < dl -> dims_product dims 1 = Some alen)).
   { destruct (bit m 6).
     - split_and. apply Z.eqb_eq in H. apply Z.leb_le in H2. repeat split; try assumption; try discriminate.
